@@ -272,7 +272,7 @@ def run_frozen(spec, rec, Integration, PhiManip, Numerics, tap):
             phi_in = phi0.copy()
         tags["layout"] = layout
         # the alternative discretisation of the advection term (module switch use_delj_trick) conserves mass just the same
-        delj = (ci + spec["b"]) % 4 == 3
+        delj = ((ci // 4) + spec["b"]) % 2 == 1          # (in blocks, so that every frozen pattern meets both settings)
         tags["delj"] = delj
         old_delj = Integration.use_delj_trick
         Integration.use_delj_trick = delj
